@@ -224,9 +224,9 @@ func runCheck(P *Prog, opt CheckOpts) int {
 		items = append(items, &Result{O: o, T: it.T})
 	}
 
-	sopt := SolveOpts{OutDir: opt.OutDir, Tier: opt.Tier, Workers: runtime.NumCPU(), QuickSec: 5, FullSec: 20}
+	sopt := SolveOpts{OutDir: opt.OutDir, Tier: opt.Tier, Workers: runtime.NumCPU(), QuickSec: 5, FullSec: 45}
 	if opt.Tier == "thorough" {
-		sopt.QuickSec, sopt.FullSec = 10, 120
+		sopt.QuickSec, sopt.FullSec = 10, 180
 	}
 	os.RemoveAll(filepath.Join(opt.OutDir, "smt"))
 	solveAll(items, sopt)
